@@ -13,10 +13,10 @@ def nseg(n):   # segments needed for 2n slots: capacity(s) = 2 + (8 << (s-1)) - 
     s_ = 0
     while (2 if s_ == 0 else 2 + (8 << (s_ - 1)) - (s_ - 1)) < 2 * n: s_ += 1
     return s_
-def T(n, op, victim=0, perm=None, tiers=('quick', 'thorough'), timeout=900):
+def T(n, op, victim=0, perm=None, tiers=('quick', 'thorough'), timeout=900, symheap=2, newkey_other=0):
     perm = perm or tuple(range(n))
-    return H('T_heap%d_%s%s_p%s' % (n, OPS[op], ('_v%d' % victim) if op else '', ''.join(map(str, perm))), 'h_heap.c', U, stubs=['_dispatch_calloc', 'free', '_dispatch_bug', 'libdispatch_tsd_init'], nt=1, heap=3072, pagewords=4,
-             defines=['-DN=%d' % n, '-DOP=%d' % op, '-DVICTIM=%d' % victim, '-DPERM={%s}' % ','.join(map(str, perm)), '-DNSEG=%d' % nseg(n)], unwind=10, probes=PR, timeout=timeout, tiers=tiers, mem_gb=20, paths=True, witness_any=True, mode='stop', witness='twin',
+    return H('T_heap%d_%s%s_p%s%s' % (n, OPS[op], ('_v%d' % victim) if op else '', ''.join(map(str, perm)), ('_h%d_k%d' % (symheap, newkey_other)) if symheap != 2 else ''), 'h_heap.c', U, stubs=['_dispatch_calloc', 'free', '_dispatch_bug', 'libdispatch_tsd_init'], nt=1, heap=3072, pagewords=4,
+             defines=['-DN=%d' % n, '-DOP=%d' % op, '-DVICTIM=%d' % victim, '-DPERM={%s}' % ','.join(map(str, perm)), '-DNSEG=%d' % nseg(n), '-DSYMHEAP=%d' % symheap, '-DNEWKEY_OTHER=%dull' % newkey_other], unwind=10, probes=PR, timeout=timeout, tiers=tiers, mem_gb=20, paths=True, witness_any=True, mode='stop', witness='twin',
              note='arbitrary valid heap of %d timers (deadline-heap order %s), then %s%s with symbolic keys; full invariant before and after' % (n, perm, OPS[op], (' of timer %d' % victim) if op else ''))
 def perms(n):
     # deadline-heap arrangements: every permutation (the heap-order assumption prunes nothing structurally)
@@ -35,6 +35,13 @@ for n in (1, 2, 3, 4, 5):
             # budget each - on the unchanged tree they usually end INCONCLUSIVE (reported as such); a violating path is met early in the depth-first order (this is what catches seeded C11_m1)
             if v == 0 and n >= 3 and not (n == 3 or (n == 4 and pm == tuple(range(n)))): continue
             HARNESSES += [T(n, 1, v, pm, tiers=tv, timeout=1800), T(n, 2, v, pm, tiers=tv, timeout=1800)]
+# root-level operations on heaps of 3 (every arrangement) and 4 timers with ONE heap symbolic at a time (the other heap's keys concrete).  Measured: removal of the root of 3 timers finishes in seconds
+# (quick tier); a re-arm of a timer that is the root of the symbolic heap (two-children sift-down) still does not finish in 20 min even with one heap concrete - thorough tier, INCONCLUSIVE on the clean tree
+for n, pms in ((3, perms(3)), (4, [tuple(range(4)), (0, 2, 1, 3)])):
+    for pm in pms:
+        for sh in (0, 1):
+            HARNESSES.append(T(n, 1, 0, pm, symheap=sh, timeout=1200, tiers=(('quick', 'thorough') if n == 3 else ('thorough',))))
+            for nk in (0, 17, 99): HARNESSES.append(T(n, 2, 0, pm, symheap=sh, newkey_other=nk, timeout=1800, tiers=('thorough',)))
 # crossing the segment boundary (5 -> 6 timers grows, 6 -> 5 shrinks): identity deadline order, in the quick tier
 HARNESSES += [T(5, 0), T(6, 1, 5)] + [T(6, 1, 0, tiers=('thorough',), timeout=3000)]
 PR2 = dict(PR); PR2.update({'SZ_timer_config': 'sizeof(struct dispatch_timer_config_s)', 'OFF_dtc_clock': 'offsetof(struct dispatch_timer_config_s, dtc_clock)', 'OFF_dt_pending_config': 'offsetof(struct dispatch_timer_source_refs_s, dt_pending_config)',
